@@ -6,7 +6,7 @@
     in the composition theorems the handler is ANY script and the chain ANY list.
     [repaired] = the code after the two fix: commits, [pinned] = before (D2, D3). *)
 From WM Require Import Base.Prelude Simple.Model Simple.Monitor Simple.Throttle
-  Simple.ThrottleCtx Simple.Proofs Simple.ThrottleProofs Simple.ThrottleCtxProofs Simple.DelayProofs Simple.ComposeProofs Simple.AcceptProofs Simple.Deadline Simple.DeadlineProofs.
+  Simple.ThrottleCtx Simple.Proofs Simple.ThrottleProofs Simple.ThrottleCtxProofs Simple.DelayProofs Simple.ComposeProofs Simple.AcceptProofs Simple.Deadline Simple.DeadlineProofs Corr.C19 Simple.ChainAcceptProofs Simple.Extra Corr.C19x Simple.ExtraProofs Simple.InRouter Simple.InRouterProofs Simple.TimingAcceptProofs.
 
 (** Timeout: the result is the handler's; during the call ... *)
 Theorem C19_timeout_transparent : forall d (h : handler) w,
@@ -262,7 +262,101 @@ Theorem C19_arriving_deadline : forall mws s w, forallb is_simple mws = true ->
   /\ v_deadline (view (w_msg (fst (stack repaired mws (scripted s) w)))) = v_deadline (view (w_msg w)).
 Proof. exact arriving_deadline. Qed.
 
+(** the acceptor the check evaluates on a whole case (Corr/C19.v [accept_invs] = [accept] on every
+    invocation of the chain on the same message object, each judged from the message as it was
+    observed before it) accepts every run of the repaired model: every chain (any length, any
+    order, Retry anywhere), every script, every message on its original context, every number of
+    invocations.  With this the chain acceptor is no longer a trusted oracle. *)
+Theorem C19_chain_model_accepted : forall mws s m0 n, m_ctx m0 = [] ->
+  accept_invs mws s (init_world m0) (model_invs (stack repaired mws (scripted s)) n (init_world m0)) = true.
+Proof. exact chain_model_accepted. Qed.
+Theorem C19_case_model_accepted : forall c, m_ctx (k_init c) = [] ->
+  c19_violates (C19 (k_mws c) (k_script c) (k_init c) (c19_model repaired c)) = false.
+Proof. exact case_model_accepted. Qed.
+
+(** Duplicator (duplicator.go): around a scripted handler the handler runs a second time iff the
+    first call succeeded; on success both outputs in order, otherwise the error / panic of the call
+    that failed and no outputs *)
+Theorem C19_duplicator_twice : forall s w,
+  let c1 := nth_last default_call s (w_calls w) in
+  let c2 := nth_last default_call s (S (w_calls w)) in
+  let r := x_sem XDup (scripted s) w in
+  match c_res c1 with
+  | Ret o1 => w_calls (fst r) = S (S (w_calls w))
+              /\ snd r = match c_res c2 with Ret o2 => Ret (o1 ++ o2) | Fail _ e => Fail [] e | Panic p => Panic p end
+  | Fail _ e => w_calls (fst r) = S (w_calls w) /\ snd r = Fail [] e
+  | Panic p => w_calls (fst r) = S (w_calls w) /\ snd r = Panic p
+  end.
+Proof. exact duplicator_twice. Qed.
+(** RandomFail / RandomPanic (randomfail.go): transparent when the draw misses; when it hits the
+    handler is not called, the message is untouched and the result is the fixed error / panic *)
+Theorem C19_random_fail_panic_frame : forall h w,
+  x_sem (XRandFail false) h w = h w /\ x_sem (XRandPanic false) h w = h w
+  /\ x_sem (XRandFail true) h w = (w, Fail [] (EBase T_RFAIL))
+  /\ x_sem (XRandPanic true) h w = (w, Panic (PStr T_RPANIC)).
+Proof. exact random_frame. Qed.
+(** composition: [pre (X (post h))], X one of the three, pre / post any chains of simple
+    middlewares: as many handler calls as X alone makes, its kind of result through [eff pre], and
+    the message context afterwards is the context before *)
+Theorem C19_extra_chain_result : forall pre x post s w,
+  forallb is_simple pre = true -> forallb is_simple post = true ->
+  w_calls (fst (xstack repaired pre x post s w)) = w_calls (fst (x_sem x (scripted (map_res (effo post) s)) w))
+  /\ rkind (snd (xstack repaired pre x post s w)) = eff pre (rkind (snd (x_sem x (scripted (map_res (effo post) s)) w)))
+  /\ m_ctx (w_msg (fst (xstack repaired pre x post s w))) = m_ctx (w_msg w).
+Proof. exact x_chain_result. Qed.
+(** the acceptor the check evaluates on these cases accepts every run of the model *)
+Theorem C19_extra_model_accepted : forall pre x post s w0,
+  forallb is_simple pre = true -> forallb is_simple post = true ->
+  let '(tr, r, v) := observe (xstack repaired pre x post s) w0 in
+  x_accept pre x post s w0 tr r v = true.
+Proof. exact x_accepted. Qed.
+Theorem C19_extra_case_model_accepted : forall c,
+  forallb is_simple (x_pre c) = true -> forallb is_simple (x_post c) = true -> m_ctx (x_init c) = [] ->
+  x_violates (XC (x_pre c) (x_xs c) (x_post c) (x_script c) (x_init c) (x_model repaired c)) = false.
+Proof. exact x_case_model_accepted. Qed.
+
+(** Recoverer in front of the Router (C02 model [handle]): a handler that panics without having
+    settled the message reaches the Router as an error without outputs, so the Router Nacks and
+    publishes nothing *)
+Theorem C19_recoverer_router_nacks : forall pk pb v (h : handler) w p,
+  m_settle (w_msg w) = Unsettled -> snd (h w) = Panic p -> m_settle (w_msg (fst (h w))) = Unsettled ->
+  chain_in_router (mw_sem v MRecoverer h) w = RH.CR RH.PreNone (RH.Fail [])
+  /\ MM.st (fst (RH.handle pk pb (chain_in_router (mw_sem v MRecoverer h) w))) = Nacked
+  /\ RH.publishes (snd (RH.handle pk pb (chain_in_router (mw_sem v MRecoverer h) w))) = [].
+Proof. exact recoverer_router_nacks. Qed.
+(** InstantAck anywhere in a chain of simple middlewares in front of the Router: the message ends
+    Acked whatever the handler returns and whatever the publisher does *)
+Theorem C19_instant_ack_router_acks : forall pk pb outer inner s w,
+  forallb is_simple outer = true -> forallb is_simple inner = true -> m_settle (w_msg w) = Unsettled ->
+  MM.st (fst (RH.handle pk pb (chain_in_router (stack repaired (outer ++ MInstantAck :: inner) (scripted s)) w))) = Acked.
+Proof. exact instant_ack_router_acks. Qed.
+
+(** the timing acceptors the check evaluates (Corr/C19.v) never reject what the clock models do *)
+Theorem C19_throttle_model_accepted : forall p slack, (0 < p)%Z -> (0 <= slack)%Z -> forall arr t0,
+  thr_violates (Thr p slack (throttle_run p (new_ticker t0 p) t0 arr)) = false.
+Proof. exact thr_model_accepted. Qed.
+Theorem C19_throttle_count_model_accepted : forall p, (0 < p)%Z -> forall arr t0,
+  let starts := throttle_run p (new_ticker t0 p) t0 arr in
+  thr_count_violates p (Z.of_nat (length starts)) t0 (last starts t0) = false.
+Proof. exact thr_count_model_accepted. Qed.
+Theorem C19_deadline_model_accepted : forall c dmin slack, timeouts c <> [] -> (forall d, In d (timeouts c) -> (dmin <= d)%Z) ->
+  (0 <= slack)%Z -> forall n lats lates waits,
+  dl_violates (DL dmin slack (attempts n 0 c lats lates waits) n) = false.
+Proof. exact dl_model_accepted. Qed.
+
 Print Assumptions C19_timeout_transparent.
+Print Assumptions C19_throttle_model_accepted.
+Print Assumptions C19_throttle_count_model_accepted.
+Print Assumptions C19_deadline_model_accepted.
+Print Assumptions C19_duplicator_twice.
+Print Assumptions C19_random_fail_panic_frame.
+Print Assumptions C19_extra_chain_result.
+Print Assumptions C19_extra_model_accepted.
+Print Assumptions C19_extra_case_model_accepted.
+Print Assumptions C19_recoverer_router_nacks.
+Print Assumptions C19_instant_ack_router_acks.
+Print Assumptions C19_chain_model_accepted.
+Print Assumptions C19_case_model_accepted.
 Print Assumptions C19_arriving_deadline.
 Print Assumptions C19_deadline_lower_bound.
 Print Assumptions C19_deadline_attempts.
